@@ -21,6 +21,9 @@ def gen_costs(rng, rows, cols, nd, style):
         c = rng.randint(0, 3, size=(rows, cols, nd)).astype(np.float32)
     elif style == "float":
         c = rng.randn(rows, cols, nd).astype(np.float32)
+    elif style == "close64":
+        # float64 costs (API / plugin volumes) that differ by less than the float32 resolution: still distinct costs
+        c = 1.0 + rng.randint(0, 4, size=(rows, cols, nd)) * 1e-10 + rng.randint(0, 2, size=(rows, cols, nd)) * 1.0
     else:
         c = (rng.randint(0, 50, size=(rows, cols, nd)) / 7.0).astype(np.float32)
     nanp = rng.choice([0.0, 0.2, 0.6])
@@ -59,7 +62,7 @@ def run(tier):
             for type_measure in ("min", "max"):
                 nd = int(rng.randint(2, 6))
                 subpix = int(rng.choice([1, 2, 4]))
-                style = ["ties", "float", "sevenths"][n % 3]
+                style = ["ties", "float", "sevenths"][n % 3] if n % 5 != 4 else "close64"
                 inv = [-9999, float("nan"), 7][n % 3]
                 dmin = int(rng.randint(-3, 2))
                 costs = gen_costs(rng, rows, cols, nd, style)
@@ -77,7 +80,9 @@ def run(tier):
                 conf = (["confidence_from_ambiguity", "confidence_from_x.1"], rng.rand(rows, cols, 2)) if with_conf else None
                 # bands are float32 when Pandora's own methods made them; a plugin or the API may hand over float64
                 cdt = np.float64 if n % 4 == 2 else np.float32
-                cv = build.make_cv(costs, dmin=dmin, subpix=subpix, type_measure=type_measure, vm=vm, conf=conf, conf_dtype=cdt)
+                cv = build.make_cv(costs, dmin=dmin, subpix=subpix, type_measure=type_measure, vm=vm, conf=conf, conf_dtype=cdt,
+                                   cv_dtype=np.float64 if style == "close64" else np.float32)
+                again = (n % 3 == 1)
                 before = cv["cost_volume"].data.copy()
                 csnap = conf_snapshot(cv)
                 n += 1
@@ -85,10 +90,17 @@ def run(tier):
                 chk.count((rows, cols, nd, subpix, type_measure, style, str(inv)))
                 feat = {"rows": rows, "cols": cols, "nd": nd, "subpix": subpix, "type": type_measure, "style": style,
                         "invalid_disparity": str(inv), "blocks": rows > 100 or cols > 100,
-                        "infinite_costs": with_inf, "conf_dtype": np.dtype(cdt).name if with_conf else None}
+                        "infinite_costs": with_inf, "conf_dtype": np.dtype(cdt).name if with_conf else None,
+                        "float64_costs": style == "close64", "applied_again_after_later_steps": again}
                 try:
                     d = disparity.AbstractDisparity(disparity_method="wta", invalid_disparity=inv)
                     out = d.to_disp(cv)
+                    if again:
+                        # history on one cost volume: the first map is worked on by later steps (they raise their bits in place), then
+                        # the disparity step is applied again - the fresh map carries the cost volume's flags, nothing else
+                        out["validity_mask"].data[...] |= np.uint16(8 + 256)
+                        out["disparity_map"].data[...] += 0.25
+                        out = d.to_disp(cv)
                 except Exception as exc:  # pylint: disable=broad-except
                     chk.violation("total", dict(feat, exception=type(exc).__name__), {"exception": repr(exc)[:300]},
                                   f"to_disp raised on {feat}")
